@@ -754,10 +754,15 @@ func EncodeBlock(w *W, rev int, b *Block) error {
 	return nil
 }
 
+// DecodeRawBlock parses a block without the block-info prelude.
+func DecodeRawBlock(r *R, rev int) (*Block, error) { return decodeBlock(r, rev, false) }
+
 // DecodeBlock parses a native-format block.
-func DecodeBlock(r *R, rev int) (*Block, error) {
+func DecodeBlock(r *R, rev int) (*Block, error) { return decodeBlock(r, rev, true) }
+
+func decodeBlock(r *R, rev int, info bool) (*Block, error) {
 	b := &Block{}
-	if rev >= RevBlockInfo {
+	if info && rev >= RevBlockInfo {
 		for {
 			f, err := r.UVarint()
 			if err != nil {
